@@ -81,9 +81,10 @@ class Interpolate(BaseFormOperator):
 
     def __repr__(self):
         """Default repr string construction for Interpolate."""
+        # The function space is that of the dual argument
         r = "Interpolate("
         r += ", ".join(repr(arg) for arg in reversed(self.argument_slots()))
-        r += f"; {self.ufl_function_space()!r})"
+        r += ")"
         return r
 
     def __str__(self):
